@@ -217,6 +217,21 @@ func plans(tp tierParams) []plan {
 		}
 	}
 
+	// 5. stateful reset conditions "count() >= k": every alert ID (= every sequence of the
+	//    chunk, all interleaved through one task) has its own count
+	for _, c := range []Cfg{
+		{Has: has(F, F, T), Rst: has(F, F, T), RK: [3]int{0, 0, 2}, H: 2},
+		{Has: has(F, F, T), Rst: has(F, F, T), RK: [3]int{0, 0, 3}, H: 2},
+		{Has: has(F, T, T), Rst: has(F, T, T), RK: [3]int{0, 2, 0}, H: 2},
+		{Has: has(F, T, T), Rst: has(F, T, T), RK: [3]int{0, 2, 2}, H: 3},
+	} {
+		add(c, one, tp.lcapFlap, tp.budEmit)
+	}
+	// 6. inline handler (anonymous topic) besides the named topic, handlers keeping up
+	add(Cfg{Has: has(F, F, T), H: 2, Inline: T}, onetwo, tp.lcap, tp.budEmit/2)
+	add(Cfg{Has: has(F, T, T), Sco: T, H: 2, Inline: T}, one, tp.lcap, tp.budEmit/2)
+	add(Cfg{Has: has(F, F, T), NoRec: T, H: 2, Inline: T, Batch: T}, one, tp.lcap, tp.budEmit/2)
+
 	// 4. batch form with and without all()
 	for _, hs := range [][3]bool{has(F, F, T), has(F, T, T)} {
 		for _, all := range []bool{F, T} {
@@ -322,10 +337,36 @@ func randomCfg(r *rand.Rand) Cfg {
 				c.Flo, c.Fhi = 25, 50
 			}
 		}
+		c.Inline = r.Intn(5) == 0
+		if r.Intn(6) == 0 {
+			// a stateful reset: stream, no filters (Valid)
+			c.Batch, c.All, c.Sco, c.Scod, c.NoRec, c.Flap, c.Flo, c.Fhi = false, false, false, 0, false, false, 0, 0
+			for l := 0; l < 3; l++ {
+				if c.Rst[l] && r.Intn(2) == 0 {
+					c.RK[l] = 2 + r.Intn(3)
+				}
+			}
+		}
 		if c.Valid() {
 			return c
 		}
 	}
+}
+
+// deliveryScenario: 24 alert IDs of a stream alert with an inline handler, 56 steps
+// each, every step due an event (CRITICAL, now and then a recovery): 1344 events plus
+// the sentinel's against a handler queue of 1000.
+func deliveryScenario() (Cfg, []Seq) {
+	cfg := Cfg{Has: has(false, false, true), H: 2, Inline: true}
+	var seqs []Seq
+	for i := 0; i < 24; i++ {
+		var s Seq
+		for b := 0; b < 56; b++ {
+			s = append(s, Step{Pts: []Pt{{C: [3]bool{false, false, (b+i)%7 != 3}, Dt: 1}}})
+		}
+		seqs = append(seqs, s)
+	}
+	return cfg, seqs
 }
 
 func randomSeq(r *rand.Rand, c Cfg, n int) Seq {
@@ -400,6 +441,23 @@ func Run(r *rt.Run) error {
 		cut  int // restart the task before this step (-1: never)
 		done chan chunkResult
 	}
+	// The stuck-inline-handler scenario runs alone, before the executors start (it
+	// installs the alert package's verification hook, a process-wide variable), on its
+	// own TaskMaster whose alert service has the minimum handler queue (1000 events).
+	// Its traces are written after the documented example.
+	dcfg, dseqs := deliveryScenario()
+	dids := make([]string, len(dseqs))
+	for i := range dids {
+		dids[i] = fmt.Sprintf("d%d", i+1)
+	}
+	dx, err := NewExecBuf(1000)
+	if err != nil {
+		return err
+	}
+	dobs, drep := dx.Run(dcfg, dseqs, dids, runOpts{Cut: -1, Stuck: true})
+	dx.Close()
+	cfgSeen[dcfg] = true
+
 	jobs := make(chan *job, tp.workers)
 	order := make(chan *job, 2*tp.workers)
 	execs := make([]*Exec, tp.workers)
@@ -411,7 +469,7 @@ func Run(r *rt.Run) error {
 		execs[w] = x
 		go func() {
 			for j := range jobs {
-				obs, rep := x.Run(j.cfg, j.seqs, j.ids, j.cut)
+				obs, rep := x.Run(j.cfg, j.seqs, j.ids, runOpts{Cut: j.cut})
 				j.done <- chunkResult{obs, rep}
 			}
 		}()
@@ -502,16 +560,23 @@ func Run(r *rt.Run) error {
 			}
 		}
 		for i, s := range j.seqs {
-			emit(t, j.cfg, j.ids[i], s, res.obs[i], res.rep, j.cut)
+			emit(t, j.cfg, j.ids[i], s, res.obs[i], res.rep, j.cut, false)
 			if j.doc {
 				t.Distinct("doc#" + s.key() + fmt.Sprint(i))
 			} else if len(s) >= 2 {
 				t.Distinct(fmt.Sprintf("%s#%d#%s", j.cfg, j.cut, s.key()))
 			}
 		}
+		if j.doc {
+			for i, s := range dseqs {
+				emit(t, dcfg, dids[i], s, dobs[i], drep, -1, true)
+				t.Distinct("stuck#" + s.key())
+			}
+		}
 	}
-	x := &Exec{}
+	x := &Exec{Tasks: dx.Tasks, Points: dx.Points, Events: dx.Events, Forwarded: dx.Forwarded, InlineEvents: dx.InlineEvents}
 	for _, e := range execs {
+		x.InlineEvents += e.InlineEvents
 		x.Tasks += e.Tasks
 		x.Points += e.Points
 		x.Events += e.Events
@@ -530,11 +595,15 @@ func Run(r *rt.Run) error {
 	r.Extra["node_errors_reported"] = x.NodeErrors
 	r.Extra["chunks_with_node_errors"] = errChunks
 	r.Extra["node_error_classes"] = errClasses
+	r.Extra["stuck_scenario_sequences"] = len(dseqs)
+	r.Extra["stuck_scenario_anon_collect_errors"] = drep.N
+	r.Extra["stuck_scenario_inline_events"] = dx.InlineEvents
+	r.Extra["inline_handler_events_observed"] = x.InlineEvents
 	r.Extra["real_tasks_run"] = x.Tasks
 	r.Extra["points_fed"] = x.Points
 	r.Extra["alert_events_observed"] = x.Events
 	r.Extra["forwarded_messages_observed"] = x.Forwarded
-	r.Finish("for each configuration of a covering set (levels present x resets; stateChangesOnly [interval] x noRecoveries x history; flapping x history x filters; stream and batch, all()) EVERY sequence of point classes (truth of each level/reset lambda, time step) of the fitted length is fed to a real task (one alert ID per sequence, all IDs of a chunk interleaved through one task) and the events seen by a handler on the topic plus the data forwarded downstream are recorded per step; then seeded random longer sequences over random configurations of the full product; distinct by (configuration, input sequence), non-trivial = at least 2 steps", false)
+	r.Finish("for each configuration of a covering set (levels present x resets; stateChangesOnly [interval] x noRecoveries x history; flapping x history x filters; stream and batch, all()) EVERY sequence of point classes (truth of each level/reset lambda, time step) of the fitted length is fed to a real task (one alert ID per sequence, all IDs of a chunk interleaved through one task) and the events seen by a handler on the topic plus the data forwarded downstream are recorded per step; stateful reset conditions count()>=k with all IDs of the node interleaved; task restarts before each step; one scenario with a stuck inline handler whose queue (1000) overflows while the named topic must still get every event; then seeded random longer sequences over random configurations of the full product; distinct by (configuration, input sequence), non-trivial = at least 2 steps", false)
 	return nil
 }
 
